@@ -29,13 +29,19 @@ VARIABLES l,        \* next line to consume
           pos,      \* reader -> position, Closed or Unknown
           pre,      \* position of the acting reader before the last call
           tgt,      \* target the last Seek should have reached (or Unknown)
-          firstReq  \* distinct block classes in order of first request
-vars == <<l, B, content, L, cmode, dagEq, missing, mode, pos, pre, tgt, firstReq>>
+          firstReq, \* distinct block classes in order of first request
+          pend,     \* reader -> blocks its Seeks have requested since its last non-empty Read
+          unj       \* blocks requested by earlier Seeks that the latest call showed to be unjustified
+vars == <<l, B, content, L, cmode, dagEq, missing, mode, pos, pre, tgt, firstReq, pend, unj>>
 
 MaxR == 4
 Closed == -2000000001
 Unknown == -2000000000
 ClosedAll == [r \in 1 .. MaxR |-> Closed]
+NoPend == [r \in 1 .. MaxR |-> {}]
+\* what a request for the bytes [a,b) may fetch (see the C05 conditions below)
+ZeroAtC(a, b) == {B[i].c : i \in {j \in Idx(B) : B[j].lo = B[j].hi /\ a <= B[j].lo /\ B[j].lo <= b}}
+AllowedC(a, b) == NeededC(B, a, b) \cup ZeroAtC(a, b)
 
 RECURSIVE AddReq(_, _)
 AddReq(fr, loads) ==
@@ -46,7 +52,7 @@ AddReq(fr, loads) ==
 
 Init == /\ l = 1 /\ B = <<>> /\ content = <<>> /\ L = 0 /\ cmode = "bytes" /\ dagEq = TRUE
         /\ missing = {} /\ mode = "" /\ pos = ClosedAll /\ pre = 0 /\ tgt = Unknown
-        /\ firstReq = <<>>
+        /\ firstReq = <<>> /\ pend = NoPend /\ unj = {}
 
 IsEv(e) == l <= Len(Trace) /\ Trace[l].ev = e /\ l' = l + 1
 E == Trace[l]
@@ -54,21 +60,22 @@ E == Trace[l]
 Reset == /\ IsEv("reset")
          /\ B' = <<>> /\ content' = <<>> /\ L' = 0 /\ cmode' = "bytes" /\ dagEq' = TRUE
          /\ missing' = {} /\ mode' = "" /\ pos' = ClosedAll /\ pre' = 0 /\ tgt' = Unknown
-         /\ firstReq' = <<>>
+         /\ firstReq' = <<>> /\ pend' = NoPend /\ unj' = {}
 
 Dag == /\ IsEv("dag")
        /\ B' = E.B /\ content' = E.content /\ L' = E.L /\ cmode' = E.cmode /\ dagEq' = E.dagEq
        /\ missing' = SeqToSet(E.missing) /\ mode' = E.mode
-       /\ UNCHANGED <<pos, pre, tgt, firstReq>>
+       /\ UNCHANGED <<pos, pre, tgt, firstReq, pend>> /\ unj' = {}
 
 OpenNode == /\ IsEv("opennode")
             /\ pos' = ClosedAll
             /\ firstReq' = AddReq(firstReq, E.loads)
-            /\ UNCHANGED <<B, content, L, cmode, dagEq, missing, mode, pre, tgt>>
+            /\ UNCHANGED <<B, content, L, cmode, dagEq, missing, mode, pre, tgt, pend>> /\ unj' = {}
 
 Open == /\ IsEv("open")
         /\ pos' = [pos EXCEPT ![E.r] = IF E.e = "nil" THEN 0 ELSE Closed]
         /\ firstReq' = AddReq(firstReq, E.loads)
+        /\ pend' = [pend EXCEPT ![E.r] = {}] /\ unj' = {}
         /\ UNCHANGED <<B, content, L, cmode, dagEq, missing, mode, pre, tgt>>
 
 Seek == /\ IsEv("seek")
@@ -80,36 +87,43 @@ Seek == /\ IsEv("seek")
                /\ pos' = [pos EXCEPT ![E.r] =
                             IF t = Unknown THEN (IF E.e = "nil" THEN E.ret ELSE Unknown)
                             ELSE IF t < 0 THEN p ELSE t]   \* a refused seek leaves the position where it was (FileRead.Seek)
+               \* what earlier Seeks of this reader requested is justified only if the position now sought still needs it
+               /\ unj' = IF t = Unknown THEN {} ELSE pend[E.r] \ (IF t < 0 THEN {} ELSE AllowedC(t, t + 1))
+               /\ pend' = [pend EXCEPT ![E.r] = SeqToSet(E.loads)]
         /\ firstReq' = AddReq(firstReq, E.loads)
         /\ UNCHANGED <<B, content, L, cmode, dagEq, missing, mode>>
 
 Read == /\ IsEv("read")
         /\ pre' = pos[E.r]
         /\ pos' = [pos EXCEPT ![E.r] = IF @ = Unknown THEN Unknown ELSE @ + E.n]
+        \* a Read that asks for bytes justifies what the Seeks before it requested only as far as its own range needs it
+        /\ IF E.k = 0 THEN UNCHANGED pend /\ unj' = {}
+           ELSE /\ pend' = [pend EXCEPT ![E.r] = {}]
+                /\ unj' = IF pos[E.r] < 0 THEN {} ELSE pend[E.r] \ AllowedC(pos[E.r], pos[E.r] + E.k)
         /\ firstReq' = AddReq(firstReq, E.loads)
         /\ UNCHANGED <<B, content, L, cmode, dagEq, missing, mode, tgt>>
 
 Whole == /\ IsEv("whole")
          /\ pre' = 0
          /\ firstReq' = AddReq(firstReq, E.loads)
-         /\ UNCHANGED <<B, content, L, cmode, dagEq, missing, mode, pos, tgt>>
+         /\ UNCHANGED <<B, content, L, cmode, dagEq, missing, mode, pos, tgt, pend>> /\ unj' = {}
 
 Budget == /\ IsEv("budget")
-          /\ UNCHANGED <<B, content, L, cmode, dagEq, missing, mode, pos, pre, tgt, firstReq>>
+          /\ UNCHANGED <<B, content, L, cmode, dagEq, missing, mode, pos, pre, tgt, firstReq, pend>> /\ unj' = {}
 
 \* a byte range through a subset-matcher traversal over the node (no reader state involved)
 Subset == /\ IsEv("subset")
           /\ firstReq' = AddReq(firstReq, E.loads)
-          /\ UNCHANGED <<B, content, L, cmode, dagEq, missing, mode, pos, pre, tgt>>
+          /\ UNCHANGED <<B, content, L, cmode, dagEq, missing, mode, pos, pre, tgt, pend>> /\ unj' = {}
 \* the environment makes every block available again; readers and nodes keep their state
 Heal == /\ IsEv("heal") /\ missing' = {}
-        /\ UNCHANGED <<B, content, L, cmode, dagEq, mode, pos, pre, tgt, firstReq>>
+        /\ UNCHANGED <<B, content, L, cmode, dagEq, mode, pos, pre, tgt, firstReq, pend>> /\ unj' = {}
 \* the builder returned a link whose DAG the independent walker cannot read back from the store
 Unwalkable == /\ IsEv("unwalkable")
-              /\ UNCHANGED <<B, content, L, cmode, dagEq, missing, mode, pos, pre, tgt, firstReq>>
+              /\ UNCHANGED <<B, content, L, cmode, dagEq, missing, mode, pos, pre, tgt, firstReq, pend>> /\ unj' = {}
 Done == l = Len(Trace) + 1 /\ UNCHANGED vars
 
-Crash == IsEv("crash") /\ UNCHANGED <<B, content, L, cmode, dagEq, missing, mode, pos, pre, tgt, firstReq>>
+Crash == IsEv("crash") /\ UNCHANGED <<B, content, L, cmode, dagEq, missing, mode, pos, pre, tgt, firstReq, pend>> /\ unj' = {}
 Next == Crash \/ Reset \/ Dag \/ OpenNode \/ Open \/ Seek \/ Read \/ Whole \/ Budget \/ Heal \/ Subset \/ Unwalkable \/ Done
 TraceSpec == Init /\ [][Next]_vars
 
@@ -163,13 +177,14 @@ Cond_C04_NoBudget == (Has /\ Ev.ev = "budget") => FALSE
 \* C05: only what the request needs.  A child that holds no bytes (lo = hi) has no byte span to intersect; the
 \* reader passes it when it walks from one neighbour to the next, so requesting it is accepted (never demanded)
 \* when the range reaches its position.
-ZeroAtC(a, b) == {B[i].c : i \in {j \in Idx(B) : B[j].lo = B[j].hi /\ a <= B[j].lo /\ B[j].lo <= b}}
-AllowedC(a, b) == NeededC(B, a, b) \cup ZeroAtC(a, b)
 Cond_C05_Read == (Has /\ Ev.ev = "read" /\ pre >= 0) =>
                  \A m \in 1 .. Len(Ev.loads) : Ev.loads[m] \in AllowedC(pre, pre + Max(Ev.k, 1))
-Cond_C05_Seek == (Has /\ Ev.ev = "seek") =>
-                 \A m \in 1 .. Len(Ev.loads) :
-                    tgt >= 0 /\ Ev.loads[m] \in AllowedC(tgt, tgt + 1)
+Cond_C05_Seek == /\ (Has /\ Ev.ev = "seek") =>
+                      \A m \in 1 .. Len(Ev.loads) :
+                         tgt >= 0 /\ Ev.loads[m] \in AllowedC(tgt, tgt + 1)
+                 \* ... and a block a Seek requested must be needed by the bytes the reader then actually asks for:
+                 \* repositioning again, or reading elsewhere, leaves it fetched for no requested byte
+                 /\ unj = {}
 Cond_C05_Open == (Has /\ (Ev.ev = "open" \/ (Ev.ev = "opennode" /\ Ev.how # "preload"))) =>
                  Ev.loads = <<>>
 
